@@ -2,12 +2,13 @@ import Driver.C01
 import Driver.Expr
 import Driver.C03
 import Driver.C06
+import Driver.C05
 
 open Drv
 
 def step (line : String) : String :=
   let toks := (line.trimAscii.toString.splitOn " ").filter (· ≠ "")
-  match (stepC01 toks <|> stepExpr toks <|> stepC03 toks <|> stepC06 toks) with
+  match (stepC01 toks <|> stepExpr toks <|> stepC03 toks <|> stepC06 toks <|> stepC05 toks) with
   | some out => out
   | none => "bad-op"
 
